@@ -44,7 +44,13 @@ TRUSTED = [
     "outcome of a single placement trial (geometry, forces, random numbers) is an arbitrary Bool of the schedule",
     "networkx bfs_edges/dfs_edges/DiGraph.edges restated in Model/Walk.lean (bfsEdges, dfsEdges, treeEdges) and "
     "compared with list(search_tree.edges) of the real objects on every case",
-    "BuildSystem.maxiter (retry bound) is unobservable: _compose_system re-enters _handle_random_walk for the same molecule",
+    "BuildSystem.maxiter (bound on consecutive failed attempts): both branches of the give-up test issue the same "
+    "remove_positions and _compose_system re-enters _handle_random_walk for the same molecule, so the model has one "
+    "transition for both; the generator drives maxiter in {0, 1, 2, default} so that a divergence of the branches "
+    "shows in the engine trace",
+    "lowered-threshold runs: the literal of `position_trees[-1].n > 5000` in NonBondEngine.add_positions (located by "
+    "the translator) is replaced in a copy of the code object on a harness-side subclass (threshold 0, 1, 2, 4), so "
+    "that the new-tree branch is taken by small systems; everything else is the real byte code",
 ]
 
 BOX = np.array([10.0, 10.0, 10.0])
